@@ -68,7 +68,7 @@ def check_c19(ctx):
                        "distinct non-empty dictionaries.")
     # 1. TLC, exhaustive: the mechanism model (sort + marker merge + truncate + binary search) equals
     #    Contains for every input, and every input is printed with the membership Layer P dictates
-    both = [{"A": 3, "MAXR": 3, "MAXS": 2}, {"A": 5, "MAXR": 3, "MAXS": 0}] if q else \
+    both = [{"A": 3, "MAXR": 3, "MAXS": 1}, {"A": 5, "MAXR": 3, "MAXS": 0}] if q else \
            [{"A": 3, "MAXR": 3, "MAXS": 2}, {"A": 6, "MAXR": 3, "MAXS": 0}, {"A": 3, "MAXR": 4, "MAXS": 1}]
     only = [] if q else [{"A": 8, "MAXR": 3, "MAXS": 0}, {"A": 4, "MAXR": 4, "MAXS": 0}]
     cases = []
@@ -190,7 +190,7 @@ def check_c20(ctx):
                        "(bounded set). distinct = distinct (set parameters, history).")
     # 1. TLC: buckets + node pool + free list implement the bounded set, all histories (unbounded length)
     ALL = '{"const","pair","mod"}'
-    mcs = [(3, 5, '{"const","pair"}')] if q else [(2, 6, ALL), (3, 6, ALL), (4, 6, '{"const","pair"}')]
+    mcs = [(3, 5, '{"const","pair"}')] if q else [(2, 6, ALL), (3, 6, ALL), (4, 5, '{"const"}')]
     for cap, k, hms in mcs:
         d = {"K": k, "CAP": cap, "VALID": "{1,2,3,4}" if cap < 4 else "{1,2,3,4,5}", "HASH": hms, "STEPS": 0}
         ctx.cov["constants"]["MC_HashSet_cap%d" % cap] = d
@@ -198,8 +198,8 @@ def check_c20(ctx):
     # 2. behaviours
     cases = []
     gens = [({"K": 4, "CAP": 2, "VALID": "{1,2,3}", "HASH": '{"const"}', "OPS": 4 if q else 5}, "mc", 0, 0),
-            ({"K": 6, "CAP": 3, "VALID": "{1,2,3,4}", "HASH": ALL, "OPS": 14}, "sim", 1000 if q else 15000, 20),
-            ({"K": 8, "CAP": 5, "VALID": "{1,2,3,4,5,6}", "HASH": ALL, "OPS": 24}, "sim", 300 if q else 6000, 30)]
+            ({"K": 6, "CAP": 3, "VALID": "{1,2,3,4}", "HASH": ALL, "OPS": 14}, "sim", 1000 if q else 8000, 20),
+            ({"K": 8, "CAP": 5, "VALID": "{1,2,3,4,5,6}", "HASH": ALL, "OPS": 24}, "sim", 300 if q else 3000, 30)]
     if not q:
         gens.append(({"K": 5, "CAP": 3, "VALID": "{1,2,3,4}", "HASH": '{"pair"}', "OPS": 4}, "mc", 0, 0))
     for d, mode, num, depth in gens:
@@ -213,7 +213,7 @@ def check_c20(ctx):
                     o.pop("expM", None)
             c["nk"] = d["K"]
         cases += got
-    cases += hashset_random(ctx, 60 if q else 1500, 80 if q else 150)
+    cases += hashset_random(ctx, 60 if q else 800, 80 if q else 120)
     hashset_run(ctx, cases, "C20")
 
 
@@ -307,7 +307,7 @@ def check_c22(ctx):
                        "satisfy the same Layer P, otherwise no verdict). distinct = distinct scripts.")
     # 1. TLC: the mechanism models satisfy Layer P and the counter clauses in every reachable state
     XRN = '{"X","r","n"}'
-    rds = [{"CLASSES": XRN, "SYMS": 3, "MAXLEN": 17, "CHUNKS": "{1,100,15002}", "EOFS": "{TRUE,FALSE}", "READS": "{2,16}",
+    rds = [{"CLASSES": XRN, "SYMS": 3, "MAXLEN": 17, "CHUNKS": "{1,100}", "EOFS": "{TRUE,FALSE}", "READS": "{2,16}",
             "PEEKS": "{16}", "DELIMS": "{2}"}] if q else \
           [{"CLASSES": ALLC, "SYMS": 3, "MAXLEN": 48, "CHUNKS": "{1,100,15002}", "EOFS": "{TRUE,FALSE}",
             "READS": "{1,3,16}", "PEEKS": "{1,16}", "DELIMS": "{1,2}"},
@@ -329,14 +329,14 @@ def check_c22(ctx):
     cases += bufio_gen(ctx, "GenBufR", "Gen_BufR.cfg", g)
     g = {"CLASSES": ALLC, "SYMS": 5, "MAXLEN": 80, "CHUNKS": "{1,3,100,15002,7,16}", "EOFS": "{TRUE,FALSE}",
          "READS": "{1,2,5,16,20}", "PEEKS": "{0,1,3,16}", "DELIMS": "{1,2}", "OPS": 10}
-    ctx.cov["constants"]["Gen_BufR_sim"] = dict(g, num=1200 if q else 30000)
-    cases += bufio_gen(ctx, "GenBufR", "Gen_BufR.cfg", g, "sim", 1200 if q else 30000, 14)
+    ctx.cov["constants"]["Gen_BufR_sim"] = dict(g, num=1200 if q else 20000)
+    cases += bufio_gen(ctx, "GenBufR", "Gen_BufR.cfg", g, "sim", 1200 if q else 20000, 14)
     g = {"WS": "{0,1,15,17,33}", "FS": "{0,17,33}", "FC": "{5,100}", "MAXACC": 200, "OPS": 2 if q else 3}
     ctx.cov["constants"]["Gen_BufW_mc"] = g
     cases += bufio_gen(ctx, "GenBufW", "Gen_BufW.cfg", g)
     g = {"WS": "{0,1,2,15,16,17,33}", "FS": "{0,1,16,17,33}", "FC": "{1,5,100}", "MAXACC": 400, "OPS": 10}
-    ctx.cov["constants"]["Gen_BufW_sim"] = dict(g, num=400 if q else 8000)
-    cases += bufio_gen(ctx, "GenBufW", "Gen_BufW.cfg", g, "sim", 400 if q else 8000, 14)
+    ctx.cov["constants"]["Gen_BufW_sim"] = dict(g, num=400 if q else 5000)
+    cases += bufio_gen(ctx, "GenBufW", "Gen_BufW.cfg", g, "sim", 400 if q else 5000, 14)
     bufio_run(ctx, cases, "C22")
 
 
